@@ -1,6 +1,9 @@
 package linter
 
-import "unicode/utf8"
+import (
+	"unicode"
+	"unicode/utf8"
+)
 
 // LexClass is the lexical context of one byte of SQL text, as the text rules need it:
 // they may only re-layout or re-case code, never the content of a literal, a quoted
@@ -11,9 +14,10 @@ const (
 	// LexCode marks SQL code: tokens and the white space between them. The line break
 	// that ends a -- comment is code as well.
 	LexCode LexClass = iota
-	// LexLiteral marks a byte of a '...' string literal or of a "..." or `...` quoted
-	// identifier, the quote characters included. The typographic quotes the tokenizer
-	// accepts delimit these constructs as well (see quoteKind).
+	// LexLiteral marks a byte of a '...' string literal, of a dollar-quoted string
+	// ($$...$$, $tag$...$tag$) or of a "..." or `...` quoted identifier, the delimiters
+	// included. The typographic quotes the tokenizer accepts delimit the quoted
+	// constructs as well (see quoteKind).
 	LexLiteral
 	// LexBlockComment marks a byte of a /* ... */ comment, the delimiters included.
 	LexBlockComment
@@ -33,6 +37,7 @@ const (
 	lexInBlockOpen // on the '*' of "/*"
 	lexInBlock
 	lexInBlockClose // on the '/' of "*/"
+	lexInDollar     // inside a dollar-quoted string, after its opening delimiter
 )
 
 // quoteKind maps a quote character to the ASCII quote the tokenizer reads it as: the
@@ -49,6 +54,32 @@ func quoteKind(r rune) rune {
 	return r
 }
 
+// dollarOpener returns the length in bytes of the opening delimiter of a dollar-quoted
+// string ($$ or $tag$) at the start of s, which begins with '$', or 0 when there is none.
+// Like the tokenizer, it takes the '$' for such an opener when it is followed by a second
+// '$', or by a letter or '_' that starts a run of identifier characters (letters, digits,
+// marks, connector punctuation) ended by a '$'. Anything else - "$1", "$ x", "$a b$", a
+// tag that runs into the end of the text - leaves the '$' a character of code.
+func dollarOpener(s string) int {
+	if len(s) < 2 {
+		return 0
+	}
+	if first, _ := utf8.DecodeRuneInString(s[1:]); first != '$' && !unicode.IsLetter(first) && first != '_' {
+		return 0
+	}
+	for i := 1; i < len(s); {
+		r, size := utf8.DecodeRuneInString(s[i:])
+		if r == '$' {
+			return i + 1
+		}
+		if !unicode.IsLetter(r) && !unicode.IsDigit(r) && !unicode.In(r, unicode.Mn, unicode.Mc, unicode.Pc) {
+			return 0
+		}
+		i += size
+	}
+	return 0
+}
+
 // LexMap classifies every byte of text in a single pass. The scanner state is carried
 // across line breaks, so the second line of a multi-line string literal or block comment
 // is not mistaken for code. Inside a quoted construct a doubled quote character is part
@@ -59,11 +90,20 @@ func quoteKind(r rune) rune {
 // end of the literal, and their tests pin that reading. Bytes that are not valid UTF-8
 // are classified like any other byte of their context.
 //
+// A dollar-quoted string ($$...$$, $tag$...$tag$, see dollarOpener) is read like the
+// tokenizer reads it: it ends at the first repetition of its opening delimiter, so
+// quotes, comment openers and line breaks inside it are content, and one that is never
+// closed runs to the end of the text.
+//
 // The result has len(text)+1 entries: entry i is the class of text[i], the last entry is
 // the context at the end of the text (LexCode when no literal or block comment is open).
 func LexMap(text string) []LexClass {
 	m := make([]LexClass, len(text)+1)
 	st := lexInCode
+	var (
+		closing string // inside a dollar-quoted string: its closing delimiter, "$tag$"
+		matched int    // how many bytes of closing the characters just read have matched
+	)
 	for i := 0; i < len(text); {
 		r, size := rune(text[i]), 1
 		if text[i] >= utf8.RuneSelf {
@@ -84,6 +124,16 @@ func LexMap(text string) []LexClass {
 				cls, st = LexLineComment, lexInLineComment
 			case r == '/' && i+1 < len(text) && text[i+1] == '*':
 				cls, st = LexBlockComment, lexInBlockOpen
+			case r == '$':
+				if n := dollarOpener(text[i:]); n > 0 {
+					// the opening delimiter as a whole: its tag is not code
+					for k := 0; k < n; k++ {
+						m[i+k] = LexLiteral
+					}
+					closing, matched, st = text[i:i+n], 0, lexInDollar
+					i += n
+					continue
+				}
 			}
 		case lexInSingle:
 			cls = LexLiteral
@@ -115,6 +165,20 @@ func LexMap(text string) []LexClass {
 			}
 		case lexInBlockClose:
 			cls, st = LexBlockComment, lexInCode
+		case lexInDollar:
+			// The string ends where the text repeats the delimiter. A '$' occurs in the
+			// delimiter only as its first and its last character, so a character that does
+			// not continue the match leaves nothing matched, or its own '$'.
+			cls = LexLiteral
+			if next, nsize := utf8.DecodeRuneInString(closing[matched:]); r == next && size == nsize {
+				if matched += size; matched == len(closing) {
+					st = lexInCode
+				}
+			} else if r == '$' {
+				matched = 1
+			} else {
+				matched = 0
+			}
 		}
 		for k := 0; k < size; k++ {
 			m[i+k] = cls
